@@ -8,15 +8,20 @@ Definition listN_eqb (a b : list N) : bool := if list_eq_dec N.eq_dec a b then t
 Record case := mkcase {
   c_env : sigenv; c_subtags : list (N * N); c_heap : heap; c_root : ref;
   c_tag : N; c_value : ref;
+  c_via_select : bool;           (* select(root, tag=T).replace(x, deepcopy=False) instead of set_tagged *)
   c_list_tags : list N;          (* list_tags(root) before the edit, sorted *)
   c_after : heap                 (* the heap after set_tagged(root, tag=T, value=x) *)
 }.
 
 Definition check_case (c : case) : bool :=
   listN_eqb (list_tags (c_env c) (c_heap c) (c_root c)) (c_list_tags c)
-  && (if heap_eq_dec (set_tagged (c_env c) (c_subtags c) (c_heap c) (c_root c) (c_tag c) (c_value c))
-                     (c_after c) then true else false).
+  && (if heap_eq_dec
+            (if c_via_select c
+             then tag_replace (c_env c) (c_subtags c) (c_heap c) (c_root c) (c_tag c) (c_value c)
+             else set_tagged (c_env c) (c_subtags c) (c_heap c) (c_root c) (c_tag c) (c_value c))
+            (c_after c) then true else false).
 
 Definition explain_case (c : case) :=
   (list_tags (c_env c) (c_heap c) (c_root c),
-   set_tagged (c_env c) (c_subtags c) (c_heap c) (c_root c) (c_tag c) (c_value c)).
+   set_tagged (c_env c) (c_subtags c) (c_heap c) (c_root c) (c_tag c) (c_value c),
+   tag_replace (c_env c) (c_subtags c) (c_heap c) (c_root c) (c_tag c) (c_value c)).
